@@ -111,6 +111,8 @@ func (rl *relay) pump(dst, src net.Conn, dir int) {
 		pos      int
 		win      []byte
 		applied  bool
+		hsEnd    = -1 // for a byte dropped from the handshake packet: where the packet ends
+		consumed int
 	)
 	out := func(b []byte) bool {
 		if len(b) == 0 {
@@ -123,6 +125,19 @@ func (rl *relay) pump(dst, src net.Conn, dir int) {
 	process := func(data []byte) bool {
 		for len(data) > 0 {
 			if f == nil || applied {
+				if hsEnd >= 0 && consumed+len(data) >= hsEnd {
+					// The packet is now one byte short: its reader waits for a byte that
+					// only the next message could bring, which the sender will not write
+					// before it has an answer. Nothing can move any more; end the
+					// connection instead of letting both ends run into their timeouts.
+					k := hsEnd - consumed
+					if k > 0 {
+						out(data[:k])
+					}
+					rl.closeBoth()
+					return false
+				}
+				consumed += len(data)
 				return out(data)
 			}
 			if pos < a {
@@ -134,6 +149,7 @@ func (rl *relay) pump(dst, src net.Conn, dir int) {
 					return false
 				}
 				pos += k
+				consumed += k
 				data = data[k:]
 				continue
 			}
@@ -149,6 +165,7 @@ func (rl *relay) pump(dst, src net.Conn, dir int) {
 			}
 			win = append(win, data[:k]...)
 			pos += k
+			consumed += k
 			data = data[k:]
 			if pos == c {
 				atomic.StoreInt64(&rl.absOff, int64(a))
@@ -171,6 +188,9 @@ func (rl *relay) pump(dst, src net.Conn, dir int) {
 			if len(held) >= 2 {
 				hsLen := 2 + int(binary.BigEndian.Uint16(held))
 				atomic.StoreInt64(&rl.hsLen, int64(hsLen))
+				if f.Region == "hs" && f.Kind == "drop" {
+					hsEnd = hsLen
+				}
 				if f.Region == "hs" {
 					a = f.Off % hsLen
 					if f.Kind == "dup" && a == hsLen-1 && a > 0 {
